@@ -782,3 +782,43 @@ def shrink(tree, still_bad, budget_s=30.0):
                         continue
                 j += 1
     return best
+
+
+# ---------------------------------------------------------------------------------------------
+# terminating variant (for streams that RUN the programs): every loop gets a counter and leaves
+# after 3 iterations, every function body increments a global call counter and returns null
+# beyond 40 calls; programs that read stdin or spawn processes are not used.
+def _bound(stmts, ctr):
+    out = []
+    for s in stmts:
+        k = s[0]
+        if k == "fun":
+            pre = [("set", "zd", ("bin", "add", ("var", "zd"), ("num", "1"))),
+                   ("if", ("bin", "pass", ("var", "zd"), ("num", "40")), [("return", ("null",))], None)]
+            out.append(("fun", s[1], s[2], pre + _bound(s[3], ctr)))
+        elif k == "loop":
+            ctr[0] += 1
+            zk = "zk%d" % ctr[0]
+            pre = [("set", zk, ("bin", "add", ("var", zk), ("num", "1"))),
+                   ("if", ("bin", "pass", ("var", zk), ("num", "3")), [("break",)], None)]
+            out.append(("make", zk, ("num", "0")))
+            out.append(("loop", s[1], pre + _bound(s[2], ctr)))
+        elif k == "if":
+            out.append(("if", s[1], _bound(s[2], ctr), None if s[3] is None else _bound(s[3], ctr)))
+        elif k == "block":
+            out.append(("block", _bound(s[1], ctr)))
+        else:
+            out.append(s)
+    return out
+
+
+def gen_terminating(rng, max_bytes=None):
+    for _ in range(60):
+        o = Opts(p_sane=rng.choice([1.0, 1.0, 0.98]), max_depth=rng.choice([3, 4, 5]))
+        src, tree, _ = gen(rng, o)
+        if "read_line" in src or "command" in src or ".run" in src:
+            continue
+        text = render([("make", "zd", ("num", "0"))] + _bound(tree, [0]))
+        if max_bytes is None or len(text.encode("utf-8")) <= max_bytes:
+            return text
+    return "shout(1)\n"
